@@ -12,6 +12,7 @@ import (
 	"fmt"
 	"os"
 	"sort"
+	"sync"
 
 	"verifharness/e2e"
 	"verifharness/lib"
@@ -27,21 +28,6 @@ func main() {
 		base := e2e.Scratch("c02")
 		defer os.RemoveAll(base)
 
-		// fixed witnesses: tree A, tree B (an entry of an output directory renamed), rm -rf plz-out, tree B again
-		for wi, w := range e2e.EngWitnesses() {
-			for ci, mode := range []string{"dir", "dircompress"} {
-				dir := fmt.Sprintf("%s/w%d_%d", base, wi, ci)
-				os.MkdirAll(dir, 0o755)
-				specs := []*e2e.Spec{w.Specs[0], w.Specs[1], w.Specs[1]}
-				h := e2e.EngRunSpecs(dir, specs, w.Order, e2e.EngOpts{CleanRef: true, Cache: mode}, map[int]bool{2: true})
-				for k := range h {
-					c.Hist("edit", "witness-"+w.Name)
-					oracle(c, 1000+wi, h, k, mode)
-				}
-				c.Case(e2e.EngCaseTerm(h), histJSON(1000+wi, h, len(h)-1, mode), e2e.EngKey(h)+mode, true)
-			}
-		}
-
 		n := c.Scale(8, 300)
 		steps := c.Scale(5, 8)
 		mode := func(i int) string {
@@ -50,9 +36,43 @@ func main() {
 			}
 			return "dir"
 		}
-		all := e2e.EngRunHistories(c.Rng, base, n, 8, func(i int) e2e.EngOpts {
-			return e2e.EngOpts{MaxPkgs: 2, MaxTargets: 6, Steps: steps, CleanRef: true, Cache: mode(i), PWipe: 40, PRevert: 20, PNoop: 0, DirHeavy: i%4 == 0}
-		})
+		rH := c.Rng.Fork()
+		wits := e2e.EngWitnesses()
+		modes := []string{"dir", "dircompress"}
+		witH := make([][]e2e.EngStep, len(wits)*len(modes))
+		var all [][]e2e.EngStep
+		var wg sync.WaitGroup
+		wg.Add(1 + len(witH))
+		go func() {
+			defer wg.Done()
+			all = e2e.EngRunHistories(rH, base, n, 8, func(i int) e2e.EngOpts {
+				return e2e.EngOpts{MaxPkgs: 2, MaxTargets: 6, Steps: steps, CleanRef: true, Cache: mode(i), PWipe: 40, PRevert: 20, PNoop: 0, DirHeavy: i%4 == 0}
+			})
+		}()
+		// fixed witnesses: tree A, tree B (an entry of an output directory renamed), rm -rf plz-out, tree B again
+		for wi := range wits {
+			for ci := range modes {
+				go func(wi, ci int) {
+					defer wg.Done()
+					dir := fmt.Sprintf("%s/w%d_%d", base, wi, ci)
+					os.MkdirAll(dir, 0o755)
+					w := wits[wi]
+					specs := []*e2e.Spec{w.Specs[0], w.Specs[1], w.Specs[1]}
+					witH[wi*len(modes)+ci] = e2e.EngRunSpecs(dir, specs, w.Order, e2e.EngOpts{CleanRef: true, Cache: modes[ci]}, map[int]bool{2: true})
+				}(wi, ci)
+			}
+		}
+		wg.Wait()
+		for wi, w := range wits {
+			for ci, m := range modes {
+				h := witH[wi*len(modes)+ci]
+				for k := range h {
+					c.Hist("edit", "witness-"+w.Name)
+					oracle(c, 1000+wi, h, k, m)
+				}
+				c.Case(e2e.EngCaseTerm(h), histJSON(1000+wi, h, len(h)-1, m), e2e.EngKey(h)+m, true)
+			}
+		}
 		for i, h := range all {
 			restored := false
 			for k := range h {
